@@ -35,11 +35,12 @@ def make_vals():
         {'a': 1, 'b': 2}, {'a': 1, 'c': 2}, [{'a': 1, 'b': 2}], [{'a': 1, 'c': 2}], {'b': 2, 'a': 1},   # 25..29
         [1, [2, 3]], [1, [2, 4]], (1, 2.0), b'a', frozenset({1}), {1},                               # 30..35
         collections.OrderedDict([('a', 1), ('b', 2)]), collections.OrderedDict([('b', 2), ('a', 1)]),  # 36, 37: equal items, different order (not equal)
+        {'a': None}, {'c': None}, [{'a': None}], [{'c': None}],   # 38..41: same length, the differing keys map to None (a .get() shortcut reads them equal)
     ]
 
 
 B0, B1, B2 = 22, 23, 24
-EQ_DOMAIN = list(range(0, 22)) + list(range(25, 38))
+EQ_DOMAIN = list(range(0, 22)) + list(range(25, 42))
 
 
 class Boom(Exception):
@@ -79,6 +80,17 @@ class CB:
         elif act:
             setattr(target, act[1], w.vals[act[2]])
         w.log.append(('ret', self.spec['id']))
+
+
+class EqCB(CB):
+    """callbacks that compare equal to one another although they are distinct objects (like dataclass handlers): two registrations
+    with the same settings are then equal Watcher tuples, and only identity tells them apart"""
+
+    def __eq__(self, other):
+        return isinstance(other, EqCB)
+
+    def __hash__(self):
+        return 17
 
 
 class World:
@@ -137,7 +149,7 @@ class World:
 
     def register(self, s):
         ns = {'inst': self.o, 'cls': self.cls, 'sub': self.sub}[s['target']].param
-        cb = CB(self, s)
+        cb = (EqCB if s.get('eqcb') else CB)(self, s)
         if s['mode'] == 'kwargs':
             h = ns.watch_values(cb, list(s['names']), what=s['what'], onlychanged=s['onlychanged'], queued=s['queued'],
                                 precedence=s['precedence'])
